@@ -565,8 +565,10 @@ def add_start(job, g):
     for name in g.sample(used, g.randint(1, min(2, len(used)))):
         mt = mts[name]
         k = g.randrange(len(mt["residues"]))
+        from gen import topgen
+        rid = topgen.file_resid(mt, k)        # the number the residue carries in the file (numbering may restart)
         if g.random() < 0.5:
-            specs.append(f"{name}-{mt['residues'][k]}#{k + 1}")
+            specs.append(f"{name}-{mt['residues'][k]}#{rid}")
         else:
             # by molecule index
             idx = 0
@@ -576,7 +578,7 @@ def add_start(job, g):
                     if n == name:
                         cand.append(idx)
                     idx += 1
-            specs.append(f"{name}#{g.choice(cand)}-{mt['residues'][k]}#{k + 1}")
+            specs.append(f"{name}#{g.choice(cand)}-{mt['residues'][k]}#{rid}")
     job["opts"]["start"] = specs
     return True
 
